@@ -120,12 +120,30 @@ class MapOf(Shape):
         self.val = val
 
 
+EXT_ENUMS: dict[str, list] = {}
+
+
 class Enum(Shape):
+    """Enum member. `cls` is 'module:Class' of a repository enum, or 'ext:dotted.Class' of a library
+    enum with its `members` listed (the list is checked against the installed library by a probe)."""
     kind = "enum"
 
     def __init__(self, cls, members=None):
         self.cls = cls
         self.members = members  # None => read from the class body
+        if cls.startswith("ext:") and members:
+            EXT_ENUMS[cls] = list(members)
+
+
+class ExtObj(Shape):
+    """An external (library) object we only talk to: every method call is recorded in `.calls`
+    (a list of (name, args) tuples) and returns None, or a fresh value of the shape given in `returns`."""
+    kind = "extobj"
+
+    def __init__(self, cls, returns=None, **fields):
+        self.cls = cls
+        self.returns = returns or {}
+        self.fields = fields
 
 
 class Const(Shape):
